@@ -21,8 +21,8 @@ from bounded.cases import _router_common as C
 from bounded.common import fail
 
 BOUND = ('single-rule routers: every rule of the exhaustive segment universe of C01 (17 segment forms incl. adjacent '
-         'wildcards, in-segment literals, anonymous wildcards, int/float/re/path filters; <=2 segments quick / <=3 '
-         'thorough) and of the 68-rule hand pool, plus seeded random rules, each in the 3 syntax flavours x request '
+         'wildcards, in-segment literals, anonymous wildcards, int/float/re/path filters; <=3 segments '
+         'thorough; the 3-segment ones in quick with one flavour and guided paths only) and of the 68-rule hand pool, plus seeded random rules, each in the 3 syntax flavours x request '
          'paths: rule-guided (each wildcard filled from a value pool incl. empty text, CR, non-ASCII, signs, leading '
          'zeros, long/tiny/huge numerals, values containing the following literal; then perturbed) and all strings of '
          "length <=3 (thorough <=4) over {a,b,/,1,-,.,e-acute,CR}; every matching path is round-tripped")
@@ -50,12 +50,12 @@ def nontrivial(case):
 
 def gen_cases(tier, seed):
     quick = tier == 'quick'
-    rules = C.rule_pool() + C.universe_rules(2 if quick else 3)
+    small = C.rule_pool() + C.universe_rules(2)
     rnd = random.Random(seed)
     for _ in range(300 if quick else 6000):
-        rules.append(C.random_rule(rnd))
+        small.append(C.random_rule(rnd))
     k = 0
-    for rule in rules:
+    for rule in small:
         seen_text = set()
         has_wild = C.rule_has_wildcard(rule)
         for fl in S.FLAVOURS:
@@ -68,6 +68,21 @@ def gen_cases(tier, seed):
             if has_wild:
                 src.append(['all', 3 if quick else 4, 0, 1])
             yield dict(rule=rule, flavour=fl, paths=src)
+    # three-segment universe: quick = one flavour each (rotating) and guided paths only
+    for rule in C.universe_rules(3):
+        if sum(seg[1].count('/') for seg in rule if S.is_lit(seg)) < 3 or not C.rule_has_wildcard(rule):
+            continue                      # shorter ones are in `small`
+        k += 1
+        if quick:
+            yield dict(rule=rule, flavour=S.FLAVOURS[k % 3], paths=[['guided', k, 60, 0]])
+            continue
+        seen_text = set()
+        for fl in S.FLAVOURS:
+            text = S.render(rule, fl)
+            if text in seen_text:
+                continue
+            seen_text.add(text)
+            yield dict(rule=rule, flavour=fl, paths=[['guided', k, 300, 1], ['all', 4 if k % 4 == 0 else 3, 0, 1]])
 
 
 def _paths(case):
